@@ -20,6 +20,7 @@ RULE = ("histories of 4..16 events over {connect, authenticated (with the passiv
         "the prekeys table (id, sent flag), the pending list, passive property and reboot flag are compared with the Lean model; the oracle checks "
         "sent<=>confirmed, re-offer of unconfirmed keys at the next login, availability of every offered key until consumed, single use, "
         "and the identity / registration id / signed-prekey signature of every upload (Curve.verifySignature). distinct = distinct history.")
+RULE += (" The corpus histories also with the library's loggers at WARNING / DEBUG / CRITICAL / INFO.")
 ASSUMPTIONS = ["python-axolotl's session builder removes the one-time prekey a first message names (exercised with real PreKeyWhisperMessages)",
                "key ids stay far below the 24-bit wrap-around"]
 
@@ -52,6 +53,10 @@ def cases(chk):
     ]
     for h in corpus:
         yield "history", {"events": h}
+    # the application's logging configuration (per-module levels) is its own business: the same histories with the library's loggers silenced /
+    # made verbose
+    for i, h in enumerate(corpus):
+        yield "history", {"events": h, "loglevel": ["module-warning", "module-debug", "module-critical", "module-info"][i % 4]}
     # the library's own batch size (812 keys, regenerate below 10): two uploads in a row stay unconfirmed, so that the next login has more
     # than one batch pending — a limit on what one upload carries shows only then
     yield "history", {"events": ["connect", "authed", "uploadError:0", "serverAsksKeys", "disconnected", "restart", "connect", "authed", "uploadResult:0",
@@ -87,7 +92,7 @@ def cases(chk):
 def nontrivial(stream, case):
     if stream == "idenc":
         return ("idenc", case["n"])
-    return (tuple(case["events"]), case.get("regid"))
+    return (tuple(case["events"]), case.get("regid"), case.get("loglevel"))
 
 
 class World(object):
@@ -157,7 +162,11 @@ def run_case(chk, stream, case):
         chk.batch, chk.threshold = case["batch"], case.get("threshold", 10)
         AxolotlManager.COUNT_GEN_PREKEYS, AxolotlManager.THRESHOLD_REGEN = chk.batch, chk.threshold
     try:
-        return _run_case(chk, stream, case)
+        from lib import logcfg
+        with logcfg.levels(case.get("loglevel")):
+            if case.get("loglevel"):
+                chk.hit("logging:" + case["loglevel"])
+            return _run_case(chk, stream, case)
     finally:
         chk.batch, chk.threshold = saved
         AxolotlManager.COUNT_GEN_PREKEYS, AxolotlManager.THRESHOLD_REGEN = saved
